@@ -909,16 +909,36 @@ Proof.
   rewrite (k_hh f K), (k_stored f K). apply H. exact Hin.
 Qed.
 
-Lemma eligible_cached_is_spec g s : AllCorrect g -> HasHashInv g -> In s (g_steps g) ->
-  eligible_cached g s = eligible_spec g s.
+(* the resource term: with the conjunct list [RuRunning] the subtracted units are those of every RUNNING
+   step, attached or not, which is the definition (running_usage) *)
+Lemma usage_with_running g name : usage_with [RuRunning] g name = running_usage g name.
+Proof.
+  unfold usage_with, running_usage. do 2 f_equal. apply filter_ext. intros s.
+  cbn [forallb ru_atom_holds]. apply andb_true_r.
+Qed.
+Lemma res_unavailable_with_running g s : res_unavailable_with [RuRunning] g s = res_unavailable g s.
+Proof.
+  unfold res_unavailable_with, res_unavailable.
+  induction (s_res s) as [|nu r IH]; [reflexivity|]. cbn [existsb]. rewrite IH, usage_with_running. reflexivity.
+Qed.
+(* generated fact: the repository subtracts exactly the units of the RUNNING steps *)
+Lemma ru_where_repo : ru_where = [RuRunning].
+Proof. reflexivity. Qed.
+
+Lemma eligible_cached_with_is_spec g s : AllCorrect g -> HasHashInv g -> In s (g_steps g) ->
+  eligible_cached_with [RuRunning] g s = eligible_spec g s.
 Proof.
   intros HA HH Hin. destruct (HA s Hin) as [Hs [Hn [Hr _]]].
-  unfold eligible_cached, eligible_spec, senv.
+  unfold eligible_cached_with, eligible_spec, senv. rewrite res_unavailable_with_running.
   rewrite <- (HH s Hin), <- Hr, <- Hs. cbn [fst snd].
   destruct (s_detached s) eqn:Ed.
   - cbn [negb]. rewrite !andb_false_r. reflexivity.
   - rewrite <- (Hn eq_refl). reflexivity.
 Qed.
+
+Lemma eligible_cached_is_spec g s : AllCorrect g -> HasHashInv g -> In s (g_steps g) ->
+  eligible_cached g s = eligible_spec g s.
+Proof. unfold eligible_cached. rewrite ru_where_repo. apply eligible_cached_with_is_spec. Qed.
 
 Theorem dispatch_only_eligible_gen g :
   WF g -> Acyclic g -> FlagInv g -> HasHashInv g ->
@@ -1224,6 +1244,43 @@ Proof.
 Qed.
 
 Definition the (o : option graph) (d : graph) : graph := match o with Some x => x | None => d end.
+
+(* For ANY resource query that subtracts the units of exactly the RUNNING steps the dispatch set is the set
+   of eligible steps (AllCorrect snapshot) ... *)
+Theorem dispatch_set_with_running_is_eligible g s :
+  AllCorrect g -> HasHashInv g -> In s (g_steps g) ->
+  (In s (dispatch_set_with [RuRunning] g) <-> eligible_spec g s = true).
+Proof.
+  intros HA HH Hin. unfold dispatch_set_with. rewrite filter_In.
+  rewrite (eligible_cached_with_is_spec g s HA HH Hin). tauto.
+Qed.
+
+(* ... and NOT for a query that only counts attached steps ("a detached step is no longer in the workflow"):
+   a (2) is RUNNING with the only unit of resource r and was detached (its creator failed; a detached step is not
+   killed); b (3) is PENDING, attached, needs one unit of r.  Every cached attribute is correct, b is in the
+   dispatch set, but r is not free. *)
+Definition ru_attached_only : list ru_atom := [RuRunning; RuAttached].
+Definition g_ru : graph :=
+  mkGraph [wstep 1 22 34 None true 34 false false false;
+           mkStep 2 22 32 false 0 0 true None true true 32 true false false false false false 1 1 [([114], 1)];
+           mkStep 3 21 32 false 0 0 false (Some 1) true true 32 true false false false false false 1 1 [([114], 1)]]
+          [] [mkOnode 0 false None] [] [] [] [([114], 1)] 31.
+
+Theorem dispatch_ignoring_detached_running_refuted :
+  exists g, WF g /\ Acyclic g /\ AllCorrect g /\ HasHashInv g /\
+    exists s, In s (dispatch_set_with ru_attached_only g) /\ eligible_spec g s = false /\
+              s_hash_stored s = false /\ res_unavailable g s = true.
+Proof.
+  exists g_ru.
+  split; [apply wf_refl; vm_compute; reflexivity|].
+  split; [split; [exists (fun k => if k =? 3 then 1%nat else 0%nat); apply creator_rank_refl
+                 | exists (fun k => 0%nat); apply need_rank_refl]; vm_compute; reflexivity|].
+  split; [apply allcorrect_refl; vm_compute; reflexivity|].
+  split; [apply has_hash_inv_refl; vm_compute; reflexivity|].
+  exists (mkStep 3 21 32 false 0 0 false (Some 1) true true 32 true false false false false false 1 1 [([114], 1)]).
+  split; [unfold dispatch_set_with; apply filter_In; split; [right; right; left; reflexivity | vm_compute; reflexivity]|].
+  split; [vm_compute; reflexivity|]. split; vm_compute; reflexivity.
+Qed.
 
 Theorem update_meta_min_merge_refuted :
   exists g, WF g /\ Acyclic g /\ FlagInv g /\ HasHashInv g /\
